@@ -89,9 +89,18 @@ package biscuit
 //@ serves C07 C10
 //@ requires termWF(input)
 //@ modifies nothing
-//@ loop 0 invariant fresh(arr(protoSet))
+//@ loop 0 invariant fresh(arr(protoSet)) && len(protoSet) == #i
 //@ ensures err == nil ==> res != nil && fresh(res)
 //@ ensures err != nil ==> res == nil
+//@ ensures scalars_total[C07]: !(input is datalog.Set) ==> err == nil
+//@ ensures tag_string[C07]: input is datalog.String ==> res.Content is *pb.TermV2_String_ && res.Content.(*pb.TermV2_String_).String_ == input.(datalog.String)
+//@ ensures tag_date[C07]: input is datalog.Date ==> res.Content is *pb.TermV2_Date && res.Content.(*pb.TermV2_Date).Date == input.(datalog.Date)
+//@ ensures tag_integer[C07]: input is datalog.Integer ==> res.Content is *pb.TermV2_Integer && res.Content.(*pb.TermV2_Integer).Integer == input.(datalog.Integer)
+//@ ensures tag_variable[C07]: input is datalog.Variable ==> res.Content is *pb.TermV2_Variable && res.Content.(*pb.TermV2_Variable).Variable == input.(datalog.Variable)
+//@ ensures tag_bytes[C07]: input is datalog.Bytes ==> res.Content is *pb.TermV2_Bytes && res.Content.(*pb.TermV2_Bytes).Bytes == input.(datalog.Bytes)
+//@ ensures tag_bool[C07]: input is datalog.Bool ==> res.Content is *pb.TermV2_Bool && res.Content.(*pb.TermV2_Bool).Bool == input.(datalog.Bool)
+//@ ensures tag_set[C07]: input is datalog.Set && err == nil ==> res.Content is *pb.TermV2_Set && res.Content.(*pb.TermV2_Set).Set != nil && len(res.Content.(*pb.TermV2_Set).Set.Set) == len(input.(datalog.Set))
+//@ ensures empty_set_refused[C07]: input is datalog.Set && len(input.(datalog.Set)) == 0 ==> err != nil
 
 //@ func tokenPredicateToProtoPredicateV2(input datalog.Predicate) (res *pb.PredicateV2, err error)
 //@ serves C07 C10
@@ -114,6 +123,9 @@ package biscuit
 //@ modifies nothing
 //@ ensures err == nil ==> res != nil && fresh(res) && res.Kind != nil
 //@ ensures err != nil ==> res == nil
+//@ ensures row_negate[C07]: op.UnaryOpFunc is datalog.Negate ==> err == nil && *res.Kind == pb.OpUnary_Negate
+//@ ensures row_parens[C07]: op.UnaryOpFunc is datalog.Parens ==> err == nil && *res.Kind == pb.OpUnary_Parens
+//@ ensures row_length[C07]: op.UnaryOpFunc is datalog.Length ==> err == nil && *res.Kind == pb.OpUnary_Length
 
 //@ func tokenExprBinaryToProtoExprBinary(op datalog.BinaryOp) (res *pb.OpBinary, err error)
 //@ serves C07 C10
@@ -121,6 +133,23 @@ package biscuit
 //@ modifies nothing
 //@ ensures err == nil ==> res != nil && fresh(res) && res.Kind != nil
 //@ ensures err != nil ==> res == nil
+//@ ensures row_lessthan[C07]: op.BinaryOpFunc is datalog.LessThan ==> err == nil && *res.Kind == pb.OpBinary_LessThan
+//@ ensures row_greaterthan[C07]: op.BinaryOpFunc is datalog.GreaterThan ==> err == nil && *res.Kind == pb.OpBinary_GreaterThan
+//@ ensures row_lessorequal[C07]: op.BinaryOpFunc is datalog.LessOrEqual ==> err == nil && *res.Kind == pb.OpBinary_LessOrEqual
+//@ ensures row_greaterorequal[C07]: op.BinaryOpFunc is datalog.GreaterOrEqual ==> err == nil && *res.Kind == pb.OpBinary_GreaterOrEqual
+//@ ensures row_equal[C07]: op.BinaryOpFunc is datalog.Equal ==> err == nil && *res.Kind == pb.OpBinary_Equal
+//@ ensures row_contains[C07]: op.BinaryOpFunc is datalog.Contains ==> err == nil && *res.Kind == pb.OpBinary_Contains
+//@ ensures row_prefix[C07]: op.BinaryOpFunc is datalog.Prefix ==> err == nil && *res.Kind == pb.OpBinary_Prefix
+//@ ensures row_suffix[C07]: op.BinaryOpFunc is datalog.Suffix ==> err == nil && *res.Kind == pb.OpBinary_Suffix
+//@ ensures row_regex[C07]: op.BinaryOpFunc is datalog.Regex ==> err == nil && *res.Kind == pb.OpBinary_Regex
+//@ ensures row_add[C07]: op.BinaryOpFunc is datalog.Add ==> err == nil && *res.Kind == pb.OpBinary_Add
+//@ ensures row_sub[C07]: op.BinaryOpFunc is datalog.Sub ==> err == nil && *res.Kind == pb.OpBinary_Sub
+//@ ensures row_mul[C07]: op.BinaryOpFunc is datalog.Mul ==> err == nil && *res.Kind == pb.OpBinary_Mul
+//@ ensures row_div[C07]: op.BinaryOpFunc is datalog.Div ==> err == nil && *res.Kind == pb.OpBinary_Div
+//@ ensures row_and[C07]: op.BinaryOpFunc is datalog.And ==> err == nil && *res.Kind == pb.OpBinary_And
+//@ ensures row_or[C07]: op.BinaryOpFunc is datalog.Or ==> err == nil && *res.Kind == pb.OpBinary_Or
+//@ ensures row_intersection[C07]: op.BinaryOpFunc is datalog.Intersection ==> err == nil && *res.Kind == pb.OpBinary_Intersection
+//@ ensures row_union[C07]: op.BinaryOpFunc is datalog.Union ==> err == nil && *res.Kind == pb.OpBinary_Union
 
 //@ func tokenExpressionToProtoExpressionV2(input datalog.Expression) (res *pb.ExpressionV2, err error)
 //@ serves C07 C10
@@ -245,12 +274,34 @@ package biscuit
 //@ requires op != nil && op.Kind != nil
 //@ modifies nothing
 //@ ensures (err == nil) == (res != nil)
+//@ ensures row_negate[C07]: *op.Kind == pb.OpUnary_Negate ==> err == nil && res is datalog.Negate
+//@ ensures row_parens[C07]: *op.Kind == pb.OpUnary_Parens ==> err == nil && res is datalog.Parens
+//@ ensures row_length[C07]: *op.Kind == pb.OpUnary_Length ==> err == nil && res is datalog.Length
+//@ ensures unknown_kind[C07 C10]: *op.Kind != pb.OpUnary_Negate && *op.Kind != pb.OpUnary_Parens && *op.Kind != pb.OpUnary_Length ==> err != nil
 
 //@ func protoExprBinaryToTokenExprBinary(op *pb.OpBinary) (res datalog.BinaryOpFunc, err error)
 //@ serves C07 C10
 //@ requires op != nil && op.Kind != nil
 //@ modifies nothing
 //@ ensures (err == nil) == (res != nil)
+//@ ensures row_lessthan[C07]: *op.Kind == pb.OpBinary_LessThan ==> err == nil && res is datalog.LessThan
+//@ ensures row_greaterthan[C07]: *op.Kind == pb.OpBinary_GreaterThan ==> err == nil && res is datalog.GreaterThan
+//@ ensures row_lessorequal[C07]: *op.Kind == pb.OpBinary_LessOrEqual ==> err == nil && res is datalog.LessOrEqual
+//@ ensures row_greaterorequal[C07]: *op.Kind == pb.OpBinary_GreaterOrEqual ==> err == nil && res is datalog.GreaterOrEqual
+//@ ensures row_equal[C07]: *op.Kind == pb.OpBinary_Equal ==> err == nil && res is datalog.Equal
+//@ ensures row_contains[C07]: *op.Kind == pb.OpBinary_Contains ==> err == nil && res is datalog.Contains
+//@ ensures row_prefix[C07]: *op.Kind == pb.OpBinary_Prefix ==> err == nil && res is datalog.Prefix
+//@ ensures row_suffix[C07]: *op.Kind == pb.OpBinary_Suffix ==> err == nil && res is datalog.Suffix
+//@ ensures row_regex[C07]: *op.Kind == pb.OpBinary_Regex ==> err == nil && res is datalog.Regex
+//@ ensures row_add[C07]: *op.Kind == pb.OpBinary_Add ==> err == nil && res is datalog.Add
+//@ ensures row_sub[C07]: *op.Kind == pb.OpBinary_Sub ==> err == nil && res is datalog.Sub
+//@ ensures row_mul[C07]: *op.Kind == pb.OpBinary_Mul ==> err == nil && res is datalog.Mul
+//@ ensures row_div[C07]: *op.Kind == pb.OpBinary_Div ==> err == nil && res is datalog.Div
+//@ ensures row_and[C07]: *op.Kind == pb.OpBinary_And ==> err == nil && res is datalog.And
+//@ ensures row_or[C07]: *op.Kind == pb.OpBinary_Or ==> err == nil && res is datalog.Or
+//@ ensures row_intersection[C07]: *op.Kind == pb.OpBinary_Intersection ==> err == nil && res is datalog.Intersection
+//@ ensures row_union[C07]: *op.Kind == pb.OpBinary_Union ==> err == nil && res is datalog.Union
+//@ ensures unknown_kind[C07 C10]: (*op.Kind < 0 || *op.Kind > 16) ==> err != nil
 
 //@ func protoExpressionToTokenExpressionV2(input *pb.ExpressionV2) (res datalog.Expression, err error)
 //@ serves C07 C10
